@@ -1,7 +1,6 @@
 SPECIFICATION Spec
 CONSTANTS
   N = 6
-  GMaxDepth = 1000
-INVARIANT ResyncRefinesIntended
+  GMaxDepth = 2
 INVARIANT TablesAgree
 CHECK_DEADLOCK FALSE
